@@ -121,15 +121,22 @@ def shape_sets(rng, thorough):
 def geometric_set():
     """geometric byte frequencies: byte k occurs about 2^(17-k) times, so the rarest bytes get codewords longer than the
     16-bit chunk of the decoding table; strings start with every byte (rare bytes at bit offset 0), rare bytes follow
-    frequent ones, and some strings are an existing string plus one rare byte"""
+    frequent ones, and some strings are an existing string plus one rare byte.  Every string is shorter than 128 bytes
+    (the long-string defects of the Hu-Tucker kinds are recorded findings and must not mask what this text is for)."""
     geo = set()
     for k, total in enumerate([130000, 65000, 32000, 16000, 8000, 4000, 2000, 1000, 500, 250, 120, 60, 30, 15, 8, 4, 2, 1]):
         ch = bytes([65 + k])
-        L, used = 1, 0
-        while used + L <= total and L <= 500:
-            geo.add(ch * L)
-            used += L
-            L += 1
+        used = 0
+        for j in range(0, 21):
+            for i in range(1, 101):
+                if used + i > total:
+                    break
+                x = ch * i + (b"B" + b"A" * j if k == 0 and j else b"A" * j)
+                if x not in geo:
+                    geo.add(x)
+                    used += i + (j if k == 0 else 0)
+            if used + 1 > total:
+                break
     rare = [bytes([65 + k]) for k in range(10, 18)]
     for r in rare:
         geo.add(r + b"A")
